@@ -1331,6 +1331,7 @@ func (is *indexSearch) updateTSIDsByOrSuffixes(tf *tagFilter) (*uint64set.Set, e
 			return tsids, err
 		}
 	}
+	tsids.Subtract(is.deleted)
 	return tsids, nil
 }
 
@@ -1601,7 +1602,8 @@ func (is *indexSearch) updateTSIDsForPrefix(prefix []byte, tsids *uint64set.Set,
 	for ts.NextItem() {
 		item := ts.Item
 		if !bytes.HasPrefix(item, prefix) {
-			return nil
+			// end of the prefix range: the deleted tsids are still to be subtracted below
+			break
 		}
 		tail := item[len(prefix):]
 		for i := 0; i < tagSeps; i++ {
